@@ -158,7 +158,8 @@ def explore_stream(framer, stream):
 
     def succ(st):
         client, pos, emitted, exc, _ = st
-        for k in range(1, N - pos + 1):
+        # k = 0: a read that delivered no new bytes (empty recv / the loop calling the framer again) must change nothing
+        for k in range(0, N - pos + 1):
             c2 = clone(client)
             out = step(framer, c2, stream[pos:pos + k])
             if isinstance(out, tuple):
@@ -341,6 +342,8 @@ class _Sock:
         if not self.chunks:
             raise _EndOfStream()
         c = self.chunks.pop(0)
+        if c == "empty":
+            return b""                       # a zero-length delivery (zmq STREAM hands those out on connect / disconnect)
         if c is None:
             import zmq
             raise zmq.error.Again()          # receive timeout: the link was idle for RCVTIMEO, the stream simply continues
@@ -350,7 +353,7 @@ class _Sock:
         pass
 
 
-def run_loop(datatype, stream, cuts, idle=()):
+def run_loop(datatype, stream, cuts, idle=(), empty=()):
     """drive the real TcpClient.run() loop with a fake socket delivering the given pieces; after the pieces whose index
     is in `idle` the socket times out once (zmq.error.Again)."""
     c = TcpClient("localhost", 0, datatype)
@@ -359,6 +362,8 @@ def run_loop(datatype, stream, cuts, idle=()):
         pieces.append(ch)
         if i in idle:
             pieces.append(None)
+        if i in empty:
+            pieces.append("empty")
     c.connect = lambda: setattr(c, "socket", _Sock(pieces))
     got = []
     c.handle_messages = lambda messages: got.extend(m[0] for m in messages)
@@ -395,16 +400,16 @@ def w_runloop(arg):
         for cuts in segs:
             npieces = len(cuts_to_chunks(stream, cuts))
             idles = [()] + ([tuple(range(npieces))] if npieces <= 4 else []) + [(i,) for i in range(min(npieces, 3))]
-            for idle in idles:
-                got = run_loop(framer, stream, cuts, idle)
+            for idle, empty in [(i_, ()) for i_ in idles] + [((), e_) for e_ in idles[1:]]:
+                got = run_loop(framer, stream, cuts, idle, empty)
                 acc.n += 1
-                acc.cov["transitions"] += len(cuts) + 1 + len(idle)
-                tag = ":with_receive_timeouts" if idle else ""
+                acc.cov["transitions"] += len(cuts) + 1 + len(idle) + len(empty)
+                tag = ":with_receive_timeouts" if idle else ":with_empty_reads" if empty else ""
                 if isinstance(got, tuple):
-                    acc.bad("%s:run_loop:exception:%s%s" % (framer, got[1], tag), {"kind": "runloop", "framer": framer, "stream": bytes(stream).hex(), "cuts": cuts, "idle": list(idle)})
+                    acc.bad("%s:run_loop:exception:%s%s" % (framer, got[1], tag), {"kind": "runloop", "framer": framer, "stream": bytes(stream).hex(), "cuts": cuts, "idle": list(idle), "empty": list(empty)})
                 elif got != want:
                     acc.bad("%s:run_loop:delivered_messages_differ_from_reference%s" % (framer, tag),
-                            {"kind": "runloop", "framer": framer, "stream": bytes(stream).hex(), "cuts": cuts, "idle": list(idle), "got": got, "want": want})
+                            {"kind": "runloop", "framer": framer, "stream": bytes(stream).hex(), "cuts": cuts, "idle": list(idle), "empty": list(empty), "got": got, "want": want})
         acc.out.add(("runloop", framer, names))
     return acc.res()
 
@@ -450,9 +455,9 @@ def run(ctx):
 def replay(case):
     if case["kind"] == "runloop":
         stream = list(bytes.fromhex(case["stream"]))
-        got = run_loop(case["framer"], stream, case["cuts"], tuple(case.get("idle", ())))
+        got = run_loop(case["framer"], stream, case["cuts"], tuple(case.get("idle", ())), tuple(case.get("empty", ())))
         want = [r["msg"] for r in FRAMERS[case["framer"]][3](stream)]
-        tag = ":with_receive_timeouts" if case.get("idle") else ""
+        tag = ":with_receive_timeouts" if case.get("idle") else ":with_empty_reads" if case.get("empty") else ""
         if isinstance(got, tuple):
             return [("%s:run_loop:exception:%s%s" % (case["framer"], got[1], tag), case)]
         return [("%s:run_loop:delivered_messages_differ_from_reference%s" % (case["framer"], tag), case)] if got != want else []
